@@ -94,6 +94,13 @@ theorem file_reads_back (seqName : List Char) (fs : List Feature)
     ∃ t, fileText seqName fs = some t ∧ Spec.Tbl.read t = some [⟨seqName, fs.map featOf⟩] :=
   fileText_read seqName fs hn hfs
 
+/-- the text-level hypothesis `FeatOK` of the two theorems above holds for every feature with at least one block, a
+    key and a qualifier dictionary free of tab / line break (keys non-empty): `_qualifiers_to_str` only sorts values
+    and strips characters. -/
+theorem clean_feature_prints_readable_text (f : Feature) (hb : f.blocks ≠ [])
+    (hk : f.key ≠ [] ∧ '\t' ∉ f.key ∧ '\n' ∉ f.key) (hq : QualsClean f.quals) : FeatOK f :=
+  featOK_of_clean f hb hk hq
+
 /-- the `pseudo` qualifier line is present exactly when the feature is flagged -/
 theorem pseudo_line_iff_flag (f : Feature) :
     ((featOf f).quals.any (fun q => q.1 = "pseudo".toList)) = f.pseudo :=
@@ -202,8 +209,8 @@ theorem gene_feature_spans_all_transcripts (txs : List Tx) (hne : txs ≠ [])
   geneSpan_spec txs hne hgood
 
 /-- the RNA feature of a transcript of a non-coding gene (`rRNA` / `tRNA` / `ncRNA` by the gene's biotype): no
-    partial marks, no `pseudo`, no `codon_start`; its rows are the source blocks AS GIVEN (`chromosome_location`) —
-    with the repair of F-C17c switched on (`Model.Tbl.rnaRowsMerged`), the merged blocks. -/
+    partial marks, no `pseudo`, no `codon_start`; its rows are the merged blocks (`Model.Tbl.rnaRowsMerged = true`:
+    the code since /repo 7a2fc3c) — the source blocks AS GIVEN with the switch off (the pinned code, F-C17c). -/
 theorem rna_feature_rows (g : Gene) (hnc : g.isCoding = false) (table : Int) (pseudo : Bool) (t : Tx)
     (h : goodBlocks t.exons = true) (hne : t.exons ≠ []) (mc : Option CDS) :
     ∃ key, txFeatures g table pseudo t (mergedBlocks t.exons) mc
@@ -211,8 +218,9 @@ theorem rna_feature_rows (g : Gene) (hnc : g.isCoding = false) (table : Int) (ps
       (key = "rRNA".toList ∨ key = "tRNA".toList ∨ key = "ncRNA".toList) :=
   rna_feature g hnc table pseudo t h hne mc
 
-/-- F-C17c witness: `transcript.chromosome_location` keeps the adjacent exons [3,9) [9,12) apart, while the
-    `_location` that `TblGene` merged (and that the mRNA rows use) is the single block [3,12). -/
+/-- F-C17c regression witness (repaired in /repo 7a2fc3c): `transcript.chromosome_location`, which the RNA
+    features used to print, keeps the adjacent exons [3,9) [9,12) apart, while the `_location` that `TblGene` merged
+    (and that every transcript-level feature prints now) is the single block [3,12). -/
 theorem rna_rows_source_unmerged_witness :
     chromosomeBlocks ⟨.minus, [(3, 9), (9, 12)], none, some "lncRNA".toList⟩ = .ok [(3, 9), (9, 12)] ∧
     mergeExons ⟨.minus, [(3, 9), (9, 12)], none, some "lncRNA".toList⟩ = .ok [(3, 12)] := by
@@ -262,6 +270,15 @@ example : exampleFeature.str = some
      "\t\t\tnote\tax\n\t\t\tnote\tzb\n\t\t\tpseudo\t").toList := by decide
 example : FeatOK exampleFeature :=
   ⟨by decide, by decide, by decide⟩
+example : QualsClean [("note".toList, [some "z(b)".toList, none])] := by
+  intro kv hkv
+  simp only [List.mem_singleton] at hkv
+  subst hkv
+  refine ⟨by decide, by decide, by decide, ?_⟩
+  intro v hv
+  simp only [List.mem_cons, Option.some.injEq, reduceCtorEq, List.not_mem_nil, or_false] at hv
+  subst hv
+  exact ⟨by decide, by decide⟩
 example : readFeatures ("<31\t20\tmRNA\t\t\n14\t13\t\t\t\n9\t>3\t\t\t\n\t\t\tpseudo\t").toList
     = some [⟨"mRNA".toList, [⟨true, 31, false, 20⟩, ⟨false, 14, false, 13⟩, ⟨false, 9, true, 3⟩],
              [("pseudo".toList, [])]⟩] := by decide
